@@ -70,6 +70,45 @@ def check_text(text, acc, api, con, nontrivial, kind):
         acc.sample({'text': text.split('\n')[:30], 'labels': nlab})
 
 
+NEAR_VALID = [
+    ['while nx():', '    function fq():', '        if nx():', '            break', '        endif', '    endfunction', 'endwhile'],
+    ['for xx in arrayNew(1):', '    function fq():', '        if nx():', '            xx = 1', '        else:', '            continue', '        endif', '    endfunction', 'endfor'],
+    ['while nx():', '    function fq():', '        break', '    endfunction', 'endwhile'],
+    ['if nx():', '    function fq():', '        while nx():', '            if nx():', '                break', '            endif', '        endwhile', '    endfunction', 'endif'],
+    ['while nx():', '    if nx():', '        function fq():', '            if nx():', '                continue', '            endif', '        endfunction', '    endif', 'endwhile'],
+    ['function fq():', '    while nx():', '        fr = 1', '    endwhile', 'endfunction', 'while nx():', '    fq()', 'endwhile'],
+]
+
+
+def check_near_valid(lines, acc, api, con):
+    """Texts at the border of the grammar (loop control crossing a function boundary): the parser may reject them, but a model
+    it RETURNS must satisfy the label contract like any other."""
+    bare_script, model = api
+    text = '\n'.join(lines)
+    try:
+        bare_script.parse_script(text)
+    except Exception:  # pylint: disable=broad-except
+        con.drain()
+        acc.case(text, True)
+        acc.count('near_valid_rejected')
+        return
+    check_text(text, acc, api, con, True, 'near-valid-accepted')
+
+
+def run_watch(prog, acc, api, kind):
+    """Run-time half of the property: structured code never raises "Unknown jump label"."""
+    bare_script, model = api
+    text = '\n'.join(pp(prog))
+    for pat in ([1, 0, 1, 1, 0, 0, 1, 0], [0, 1, 0, 0, 1, 1, 0, 1]):
+        try:
+            bare_script.execute_script(bare_script.parse_script(text), {'globals': {'nx': gen_prog.make_nx(pat)}, 'maxStatements': 3000, 'logFn': None})
+        except Exception as exc:  # pylint: disable=broad-except
+            if 'Unknown jump label' in str(exc):
+                acc.violation('unknown-jump-label-at-run-time', f'{exc}\n{text}', {'text': text})
+                return
+        acc.count('executions_watched')
+
+
 def three_functions(chain):
     a = gen_prog.build_shape(chain, 'function')
     f1 = a[0]
@@ -96,8 +135,15 @@ def run_shard(spec, acc):
                 for wrap in (['if', [[gen_prog.C('nx'), [f[0]]]], None], ['for', 'ito', None, gen_prog.C('arrayNew', gen_prog.N(1)), [f[0], ['break']]],
                              ['while', gen_prog.C('nx'), [f[0], ['if', [[gen_prog.C('nx'), [['continue']]]], None]]]):
                     check_text('\n'.join(pp([wrap] + f[1:])), acc, api, con, True, 'function-in-block')
+                run_watch(gen_prog.build_shape(chain, 'global'), acc, api, 'shape')
+                from .c01 import drain_loops
+                run_watch(gen_prog.strip_logs(drain_loops(gen_prog.build_shape(chain, 'function'))), acc, api, 'empty-bodies')
+                run_watch(gen_prog.strip_logs(drain_loops(gen_prog.build_shape(chain, 'global'))), acc, api, 'empty-bodies')
             acc.cover('depths', str(len(chain)))
     else:
+        if spec['rem'] == 0:
+            for lines in NEAR_VALID:
+                check_near_valid(lines, acc, api, con)
         small = list(gen_prog.shapes(2))
         ix = 0
         for a, b in itertools.product(small[::7], small[::5]):
